@@ -1,0 +1,16 @@
+//go:build verif
+
+package guard
+
+// QueueSnapshot returns a copy of the guard's wait queue (head first). Verification only.
+func QueueSnapshot(gd Guard) []int64 {
+	g, ok := gd.(*guard)
+	if !ok {
+		return nil
+	}
+	g.cond.L.Lock()
+	defer g.cond.L.Unlock()
+	out := make([]int64, len(g.waitForUnlock))
+	copy(out, g.waitForUnlock)
+	return out
+}
